@@ -53,6 +53,7 @@ type Shared struct {
 	covers       map[string]bool
 	witness      map[string]*Model
 	errTypeCache map[string]types.Type
+	rtypes       map[string]types.Type // reflect.TypeOf stub: type string -> Go type
 	paths        int
 	instrs       int64
 	forks        int
